@@ -1774,3 +1774,166 @@ func isPbSliceElem(v ssa.Value) bool {
 	}
 	return false
 }
+
+// checkNormalizeHalfOpen (C04): RangeSorter.Normalize merges sorted half-open ranges [Low, Hi)
+// (Hi == 0: the single id Low) in place and returns a re-slice of its receiver. Structural necessary
+// conditions of "the result covers exactly the union":
+//
+//	(e) whenever the kept-slot index is advanced, the current element is copied into the new slot
+//	    before the next iteration (otherwise, once an entry was merged away, a later disjoint range is
+//	    replaced by a stale one);
+//	(f) the test that merges the current entry into the kept one compares the kept Hi with the
+//	    current Low without an offset (Hi is exclusive: `Hi+1 >= Low` swallows the id Hi);
+//	(g) when the kept range is extended, a single-id entry (Hi == 0) counts as [Low, Low+1): the
+//	    function tests the current entry's Hi against 0 and the value stored into the kept Hi derives
+//	    from the current Low as well.
+func (c *Ctx) checkNormalizeHalfOpen() {
+	r := c.R
+	fn := c.ssaMethod("server/store/types", "RangeSorter", "Normalize")
+	r.Func(fk(fn))
+	lowF := c.field("server/store/types", "Range", "Low")
+	hiF := c.field("server/store/types", "Range", "Hi")
+	if len(fn.Params) == 0 {
+		r.Fail("C04.2e-normalise-compacts", fk(fn)+": receiver", "-", "no receiver: undecided")
+		return
+	}
+	rs := fn.Params[0]
+	// element access: field of rs[idx]
+	elemField := func(v ssa.Value) (*types.Var, ssa.Value) {
+		u, ok := core.Strip(v).(*ssa.UnOp)
+		if !ok || u.Op != token.MUL {
+			return nil, nil
+		}
+		fa, ok := u.X.(*ssa.FieldAddr)
+		if !ok {
+			return nil, nil
+		}
+		ia, ok := fa.X.(*ssa.IndexAddr)
+		if !ok || ia.X != ssa.Value(rs) {
+			return nil, nil
+		}
+		f, _ := core.FieldOfAddr(fa)
+		return f, ia.Index
+	}
+	// the kept-slot index: the phi whose value + 1 bounds the returned re-slice
+	var kept *ssa.Phi
+	core.AllInstrs(fn, func(in ssa.Instruction) {
+		sl, ok := in.(*ssa.Slice)
+		if !ok || sl.X != ssa.Value(rs) || sl.High == nil {
+			return
+		}
+		if b, ok := sl.High.(*ssa.BinOp); ok && b.Op == token.ADD && core.IsConstInt(1)(b.Y) {
+			if p, ok := b.X.(*ssa.Phi); ok {
+				kept = p
+			}
+		}
+	})
+	if kept == nil {
+		// not an in-place compaction (for instance the result is appended to a new slice): (e) does not apply
+		r.Info("C04.2e-normalise-compacts", fk(fn)+": in-place compaction", c.P.Pos(fn.Pos()), "the result is not a re-slice of the receiver bounded by a kept-slot index; rule (e) not applicable")
+	} else {
+		// increments of the kept index that flow back into it
+		n := 0
+		core.AllInstrs(fn, func(in ssa.Instruction) {
+			inc, ok := in.(*ssa.BinOp)
+			if !ok || inc.Op != token.ADD || inc.X != ssa.Value(kept) || !core.IsConstInt(1)(inc.Y) {
+				return
+			}
+			if !core.Derives(kept, func(v ssa.Value) bool { return v == ssa.Value(inc) }, false) {
+				return // the bound of the final re-slice, not an advance
+			}
+			n++
+			isCopy := func(x ssa.Instruction) bool {
+				st, ok := x.(*ssa.Store)
+				if !ok {
+					return false
+				}
+				ia, ok := st.Addr.(*ssa.IndexAddr)
+				if !ok || ia.X != ssa.Value(rs) || ia.Index != ssa.Value(inc) {
+					return false
+				}
+				ld, ok := core.Strip(st.Val).(*ssa.UnOp)
+				if !ok || ld.Op != token.MUL {
+					return false
+				}
+				src, ok := ld.X.(*ssa.IndexAddr)
+				return ok && src.X == ssa.Value(rs) && src.Index != ssa.Value(inc) && src.Index != ssa.Value(kept)
+			}
+			atHeader := func(x ssa.Instruction) bool { return x.Block() == kept.Block() || core.IsReturn(x) }
+			miss, _ := core.PathAvoiding(fn, inc, atHeader, isCopy, nil)
+			r.Check(!miss, "C04.2e-normalise-compacts", fmt.Sprintf("%s: kept slot advanced #%d => current element copied into it", fk(fn), n), c.pos(inc), "",
+				"the kept-slot index is advanced without copying the current range into the new slot: after an entry was merged away, a later disjoint range is replaced by a stale one and its ids are silently dropped from the delete request / the deletion log")
+		})
+		r.Check(n >= 1, "C04.2e-normalise-compacts", fk(fn)+": advances of the kept slot found", "-", fmt.Sprintf("%d", n), "no advance of the kept-slot index found: anchor lost")
+	}
+	// (f) comparisons of a Hi with a Low of another element
+	nCmp := 0
+	core.AllInstrs(fn, func(in ssa.Instruction) {
+		b, ok := in.(*ssa.BinOp)
+		if !ok {
+			return
+		}
+		switch b.Op {
+		case token.LSS, token.LEQ, token.GTR, token.GEQ:
+		default:
+			return
+		}
+		side := func(v ssa.Value) (f *types.Var, idx ssa.Value, offset bool) {
+			if f, idx := elemField(v); f != nil {
+				return f, idx, false
+			}
+			if a, ok := core.Strip(v).(*ssa.BinOp); ok && (a.Op == token.ADD || a.Op == token.SUB) {
+				if f, idx := elemField(a.X); f != nil {
+					if _, isK := a.Y.(*ssa.Const); isK {
+						return f, idx, true
+					}
+				}
+			}
+			return nil, nil, false
+		}
+		fx, ix, ox := side(b.X)
+		fy, iy, oy := side(b.Y)
+		if fx == nil || fy == nil || ix == iy {
+			return
+		}
+		if !((fx == hiF && fy == lowF) || (fx == lowF && fy == hiF)) {
+			return
+		}
+		nCmp++
+		a := core.NormCond(b)
+		// with Hi exclusive the entries overlap or touch iff !(keptHi < curLow)
+		shapeOK := !ox && !oy && a.Op == token.LSS
+		if shapeOK {
+			fX, _ := elemField(a.X)
+			shapeOK = fX == hiF // Hi < Low (negated or not: both branches exist)
+		}
+		r.Check(shapeOK, "C04.2f-merge-test-half-open", fmt.Sprintf("%s: merge test #%d compares kept Hi with next Low without an offset", fk(fn), nCmp), c.pos(b), "",
+			"the merge test adds an offset to an exclusive bound (or compares the wrong way round): two ranges that leave a gap of one id are merged and that id is deleted / reported although nobody asked for it")
+	})
+	r.Check(nCmp >= 1, "C04.2f-merge-test-half-open", fk(fn)+": merge test found", "-", fmt.Sprintf("%d", nCmp), "no comparison of a range's Hi with another range's Low: anchor lost")
+	// (g) stores into a kept Hi
+	nSt := 0
+	core.AllInstrs(fn, func(in ssa.Instruction) {
+		st, ok := in.(*ssa.Store)
+		if !ok {
+			return
+		}
+		fa, ok := st.Addr.(*ssa.FieldAddr)
+		if !ok {
+			return
+		}
+		if f, _ := core.FieldOfAddr(fa); f != hiF {
+			return
+		}
+		ia, ok := fa.X.(*ssa.IndexAddr)
+		if !ok || ia.X != ssa.Value(rs) {
+			return
+		}
+		nSt++
+		fromHi := derivesAny(st.Val, func(v ssa.Value) bool { f, idx := elemField(v); return f == hiF && idx != ia.Index })
+		fromLow := derivesAny(st.Val, func(v ssa.Value) bool { f, idx := elemField(v); return f == lowF && idx != ia.Index })
+		r.Check(fromHi && fromLow, "C04.2g-single-id-widened", fmt.Sprintf("%s: kept Hi extended #%d from the next entry's Hi, or Low+1 for a single id", fk(fn), nSt), c.pos(st), "",
+			"when the kept range is extended the next entry's Hi is taken as it is: a single-id entry (Hi == 0) that starts at the kept range's end is consumed without extending it and its id is lost")
+	})
+	r.Check(nSt >= 1, "C04.2g-single-id-widened", fk(fn)+": extension of the kept range found", "-", fmt.Sprintf("%d", nSt), "no store into the kept range's Hi: anchor lost")
+}
